@@ -1278,6 +1278,125 @@ func wirCmdJudge(r *h.Report, f *wirFn, sh string, cmd model.CmdType, a wirArgs,
 	return impl, "ok:" + sh
 }
 
+
+// ---- END TO END with real values (deepening, wave 2): the model `Spine.CmdJson` turns the command the
+// table model builds into a VALUE of the regenerated schema's CmdType, encodes it with Spine.Json.encode,
+// decodes, reads it back and recognises (theorem c18_e2e). Op "e2e <function> <shape> <seed>": the same
+// with the real builders, encoding/json and the real recognisers; compared are (i) the built Go value,
+// field by field (all 147 fields of CmdType, all 245 of every FilterType), (ii) the JSON tree, (iii) what
+// is recognised, with the VALUES (not labels) of payload, selectors and elements.
+
+// wirTamePeriods clears the end time of every end-only TimePeriodType: its own (un)marshaler re-expresses
+// exactly those (Spine.PeriodJson, compared by TestWireJson); everything else is plain struct encoding.
+func wirTamePeriods(v reflect.Value) {
+	switch v.Kind() {
+	case reflect.Ptr:
+		if !v.IsNil() {
+			wirTamePeriods(v.Elem())
+		}
+	case reflect.Slice:
+		for i := 0; i < v.Len(); i++ {
+			wirTamePeriods(v.Index(i))
+		}
+	case reflect.Struct:
+		if v.Type() == wirTimePeriodT {
+			if v.Field(0).IsNil() && !v.Field(1).IsNil() && v.Field(1).CanSet() {
+				v.Field(1).Set(reflect.Zero(v.Field(1).Type()))
+			}
+			return
+		}
+		for i := 0; i < v.NumField(); i++ {
+			wirTamePeriods(v.Field(i))
+		}
+	}
+}
+
+func wirE2EArgs(f *wirFn, seed int64) wirArgs {
+	a := wirMakeArgs(f, rand.New(rand.NewSource(seed)))
+	for _, x := range []any{a.data, a.empty, a.sel, a.sel2, a.el} {
+		if x != nil {
+			wirTamePeriods(reflect.ValueOf(x))
+		}
+	}
+	return a
+}
+
+func wirVOrNil(x any) string {
+	if x == nil || reflect.ValueOf(x).IsNil() {
+		return "n"
+	}
+	return wirV(reflect.ValueOf(x).Elem())
+}
+
+func wirShowTypedV(v any) string {
+	if v == nil || reflect.ValueOf(v).IsNil() {
+		return "-"
+	}
+	return reflect.TypeOf(v).Elem().Name() + ":" + wirV(reflect.ValueOf(v).Elem())
+}
+
+func (fr wirFilterRec) showV() string {
+	if !fr.present {
+		return "-"
+	}
+	return fmt.Sprintf("(sel=%s,el=%s)", wirShowTypedV(fr.sel), wirShowTypedV(fr.el))
+}
+
+// wirE2EOp: returns the real observation and the model's question
+func wirE2EOp(r *h.Report, fns map[string]*wirFn, op string) (impl, ask, kind string) {
+	fl := strings.Fields(op)
+	f := fns[fl[1]]
+	sh := fl[2]
+	seed, _ := strconv.ParseInt(fl[3], 10, 64)
+	if f == nil {
+		return "unknown-function", "", "unknown"
+	}
+	if (wirUsesSel(sh) && f.selT == nil) || (wirUsesEl(sh) && f.elT == nil) {
+		return "n/a", "", "n/a"
+	}
+	given := wirE2EArgs(f, seed)
+	fd := wirNewFD(f)
+	if _, e := fd.UpdateDataAny(false, true, given.data, nil, nil); e != nil {
+		return "cannot-set-data", "", "error"
+	}
+	// the model's `data` is the copy of the stored data the builders take (DataCopy)
+	ask = fmt.Sprintf("e2e %s %s %s ; %s ; %s ; %s ; %s", f.name, sh, wirVOrNil(given.empty), wirVOrNil(fd.DataCopyAny()),
+		wirVOrNil(given.sel), wirVOrNil(given.el), wirVOrNil(given.sel2))
+	var cmd model.CmdType
+	if p := h.Recover(func() { cmd = wirBuild(fd, sh, given) }); p != nil {
+		return wirPanicClass(p), ask, "e2e-panic:" + sh
+	}
+	text, err := json.Marshal(cmd)
+	if err != nil {
+		return "marshal-error", ask, "error"
+	}
+	j, err := wirJ(text)
+	if err != nil {
+		return "json outside the model: " + err.Error(), ask, "error"
+	}
+	head := "V " + wirV(reflect.ValueOf(cmd)) + " | J " + j
+	var cmd2 model.CmdType
+	if err := json.Unmarshal(text, &cmd2); err != nil {
+		return head + " | undecodable", ask, "error"
+	}
+	var fp, fdel *model.FilterType
+	if p := h.Recover(func() { fp, fdel = cmd2.ExtractFilter() }); p != nil {
+		return head + " | " + wirPanicClass(p), ask, "e2e-panic:extract"
+	}
+	cd, derr := cmd2.Data()
+	pr, dr := wirFilterData(fp), wirFilterData(fdel)
+	switch {
+	case derr != nil || cd == nil:
+		impl = head + " | rec none"
+	case cd.Function != nil && ((pr.present && !pr.err && pr.function != string(*cd.Function)) || (dr.present && !dr.err && dr.function != string(*cd.Function))):
+		impl = head + " | rec none"
+	default:
+		impl = fmt.Sprintf("%s | rec fct=%s ty=%s payload=%s part=%s del=%s", head, wirShowFn(cd.Function),
+			reflect.TypeOf(cd.Value).Elem().Name(), wirVOrNil(cd.Value), pr.showV(), dr.showV())
+	}
+	return impl, ask, "e2e:" + sh
+}
+
 // ---- builder purity: the command a builder returns is a function of (function, stored data,
 // arguments) — nothing may be carried from one call to the next on the same function-data instance.
 //
@@ -1533,8 +1652,39 @@ func TestWireCmd(t *testing.T) {
 		byName[f.name] = f
 		names = append(names, f.name)
 	}
+	runE2E := func(op string) {
+		impl, ask, kind := wirE2EOp(r, byName, op)
+		r.Eval(kind, "")
+		if ask == "" {
+			return
+		}
+		want := d.Ask(ask)
+		if impl != want {
+			i := 0
+			for i < len(impl) && i < len(want) && impl[i] == want[i] {
+				i++
+			}
+			cut := func(x string) string {
+				lo, hi := i-80, i+160
+				if lo < 0 {
+					lo = 0
+				}
+				if hi > len(x) {
+					hi = len(x)
+				}
+				return fmt.Sprintf("…[%d]%s…", lo, x[lo:hi])
+			}
+			r.Mismatch([]string{op}, cut(impl), cut(want), "end to end: real builders + encoding/json + real recognisers versus Spine.CmdJson (cmdToV, Spine.Json.encode/decode over the schema's CmdType, cmdOfV, recognise)")
+			return
+		}
+		r.Traces++
+	}
 	run := func(op string) {
 		fl := strings.Fields(op)
+		if len(fl) == 4 && fl[0] == "e2e" {
+			runE2E(op)
+			return
+		}
 		if (len(fl) != 4 && len(fl) != 5) || fl[0] != "cmd" {
 			panic("bad op " + op)
 		}
@@ -1641,6 +1791,10 @@ func TestWireCmd(t *testing.T) {
 				for k := 0; k < h.Scale(1, 4); k++ {
 					run(fmt.Sprintf("cmd %s %s %d %d", f.name, sh, rng.Int63n(1<<40), mask))
 				}
+			}
+			// end to end with real values against Spine.CmdJson (c18_e2e)
+			for k := 0; k < h.Scale(1, 8); k++ {
+				run(fmt.Sprintf("e2e %s %s %d", f.name, sh, rng.Int63n(1<<40)))
 			}
 			if !((wirUsesSel(sh) && f.selT == nil) || (wirUsesEl(sh) && f.elT == nil)) {
 				applicable++
